@@ -1,27 +1,13 @@
 (* C19 - non-vacuity: the hypotheses and domains of the theorems are satisfiable. *)
-From YV Require Import Common.Tac C19.C19Str C19.C19Model C19.C19Lib C19.C19ProofsKV.
+From YV Require Import Common.Tac C19.C19Str C19.C19B64 C19.C19Model C19.C19Lib C19.C19ProofsKV C19.C19ProofsB64.
 Local Open Scope N_scope.
 
-(* non-vacuity of the base64 hypotheses: a (toy) encoder satisfying b64_rt and b64_clean *)
-Definition toy_enc (b : list N) : str := map (fun x => x + 20000) b.
-Definition toy_dec (s : str) : option (list N) := Some (map (fun y => y - 20000) s).
-
-Lemma toy_char : forall x, is_space (x + 20000) = false /\
-  negb ((x + 20000 =? 35) || (x + 20000 =? 59) || (x + 20000 =? 10) || (x + 20000 =? 13)) = true.
-Proof. intros x. unfold is_space. lia. Qed.
-
+(* non-vacuity of the base64 hypotheses of the generic (Section) lemmas: the modelled base64 of
+   C19B64.v satisfies them (C19ProofsB64) - the published theorems have no base64 hypothesis *)
 Example b64_hypotheses_satisfiable :
-  (forall b, toy_dec (toy_enc b) = Some b) /\ (forall b, value_ok (toy_enc b) = true).
-Proof.
-  split; intros b.
-  - unfold toy_dec, toy_enc. rewrite map_map. f_equal. rewrite <- (map_id b) at 2. apply map_ext. intros x. lia.
-  - unfold value_ok, toy_enc. apply andb_true_iff. split; [apply andb_true_iff; split|].
-    + induction b as [|x r IH]; [reflexivity|]. cbn [map forallb]. rewrite IH.
-      destruct (toy_char x) as [_ H]. rewrite H. reflexivity.
-    + destruct b as [|x r]; [reflexivity|]. cbn [map]. destruct (toy_char x) as [H _]. rewrite H. reflexivity.
-    + rewrite <- map_rev. destruct (rev b) as [|x r]; [reflexivity|]. cbn [map].
-      destruct (toy_char x) as [H _]. rewrite H. reflexivity.
-Qed.
+  (forall b, bytes_ok b = true -> b64_decode (b64_encode b) = Some b) /\
+  (forall b, value_ok (b64_encode b) = true).
+Proof. split; [exact b64_rt_thm | exact b64_encode_clean_thm]. Qed.
 
 (* non-vacuity of the configuration domain: a configuration with every kind of attribute *)
 Example wf_config_nonvacuous :
